@@ -39,6 +39,7 @@ func runC06(c *Ctx) {
 		"C06.f scroll up/down: every row of the region receives the row n lines away when that row is in the region and is erased (margins, pen background) otherwise; rows outside are untouched (n below and at/above the region height)",
 		"C06.i insert/delete line: every row from the cursor row to the bottom margin receives the row n lines above/below when that row is in the interval and is erased otherwise, rows outside are untouched, and nothing happens with the cursor outside the region (n within and beyond the lines that remain)",
 		"C06.j erase in line / erase in display / erase character: exactly the cells a VT erases are erased (EL 0/1/2, ED 0/1/2, ECH within and beyond the line): no cell outside the range is erased, every cell inside is, the loops start at or before the first and cannot stop before the last cell of the range",
+		"C06.m insert/delete character: every cell from the cursor to the right margin of the cursor row receives the cell n columns to its left/right when that cell lies in the interval and is blanked otherwise; cells outside the interval and other rows are untouched (n within and beyond the cells that remain)",
 		"C06.g print blanks, in the pen's style, exactly the columns col+1 .. min(col+w-1, right margin) a wide glyph covers, on the glyph's row",
 	}
 	c.NotDec = []string{"grid contents (graphemes, widths, styles) after each operation; SGR-to-pen mapping (C18); behaviour in the deferred-wrap column other than printing, CR and absolute positioning (exempt by the statement)"}
@@ -71,6 +72,7 @@ func runC06(c *Ctx) {
 	c06RuleScroll(c, e, tabs)
 	c06RuleInsDel(c, e, tabs)
 	c06RuleEraseRanges(c, e, tabs)
+	c06RuleColShift(c, e, tabs)
 	c06RulePrint(c, e)
 	lap("contracts")
 	c05Debug(c)
@@ -936,10 +938,11 @@ func c06RunContracts(c *Ctx, e *c05Eng, tabs map[string]*c06Table, cases []c06Ca
 // the way. Anything it does not understand is recorded in und and makes the rule undecided.
 
 type c06Eff struct {
-	kind string // "copy" (row <- src), "eraseRow" (whole row between the margins, pen background), "blankG", "blankS"
+	kind string // "copy" (row <- src), "eraseRow" (whole row between the margins, pen background), "blankG", "blankS", "erase", "copyCell", "blankCell"
 	row  c05Lin
 	col  c05Lin
 	src  c05Lin
+	srow c05Lin // copyCell: the source row
 	pos  token.Pos
 }
 
@@ -961,6 +964,8 @@ type c06X struct {
 	cur   *types.Var // Model.cursor
 	// cellErase: single-cell erases are effects of kind "erase" (row, col) instead of being refused
 	cellErase bool
+	// cellOps: whole-cell stores are effects: "copyCell" (row, col <- srow, src) and "blankCell" (row, col)
+	cellOps bool
 	// loopHook gets the first look at every loop statement
 	loopHook func(fr *c05Frame, s ast.Stmt, st *c05State, effs []c06Eff) ([]c06Out, bool)
 }
@@ -1139,6 +1144,11 @@ func (x *c06X) execStmt(fr *c05Frame, s ast.Stmt, st *c05State, effs []c06Eff) [
 		return one(0, st, effs) // calls out of the package (logging) have no grid effect
 	case *ast.AssignStmt, *ast.IncDecStmt, *ast.DeclStmt:
 		if as, ok := t.(*ast.AssignStmt); ok && len(as.Lhs) == 1 && len(as.Rhs) == 1 {
+			if x.cellOps {
+				if eff, ok := x.cellOpEffect(fr, as, st); ok {
+					return one(0, st, append(effs, eff))
+				}
+			}
 			if eff, ok := x.blankEffect(fr, as, st); ok {
 				return one(0, st, append(effs, eff...))
 			}
